@@ -130,7 +130,7 @@ func writeDeclarations(w *formatting.IndentedWriter, ns *dsl.Namespace) {
 			w.WriteString("static std::string SchemaFromVersion(Version version);\n\n")
 
 			w.WriteStringln("private:")
-			w.WriteString("uint8_t state_ = 0;\n\n")
+			fmt.Fprintf(w, "%s state_ = 0;\n\n", stateTypeName(p))
 
 			fmt.Fprintf(w, "friend class %s;\n", common.AbstractReaderName(p))
 		})
@@ -193,7 +193,7 @@ func writeDeclarations(w *formatting.IndentedWriter, ns *dsl.Namespace) {
 			w.WriteString("bool skip_completed_check_;\n\n")
 
 			w.WriteStringln("private:")
-			w.WriteStringln("uint8_t state_ = 0;")
+			fmt.Fprintf(w, "%s state_ = 0;\n", stateTypeName(p))
 		})
 		fmt.Fprint(w, "};\n")
 	})
@@ -459,7 +459,7 @@ func writeReaderStateCheckIfStatement(w *formatting.IndentedWriter, protocol *ds
 }
 
 func writeInvalidWriterStateMethod(w *formatting.IndentedWriter, p *dsl.ProtocolDefinition) {
-	fmt.Fprintf(w, "void %s(uint8_t attempted, [[maybe_unused]] bool end, uint8_t current) {\n", invalidWriterStateMethodName(p))
+	fmt.Fprintf(w, "void %s(%s attempted, [[maybe_unused]] bool end, %s current) {\n", invalidWriterStateMethodName(p), stateTypeName(p), stateTypeName(p))
 	w.Indented(func() {
 		w.WriteStringln("std::string expected_method;")
 		w.WriteStringln("switch (current) {")
@@ -491,9 +491,9 @@ func writeInvalidWriterStateMethod(w *formatting.IndentedWriter, p *dsl.Protocol
 }
 
 func writeInvalidReaderStateMethod(w *formatting.IndentedWriter, p *dsl.ProtocolDefinition) {
-	fmt.Fprintf(w, "void %s(uint8_t attempted, uint8_t current) {\n", invalidReaderStateMethodName(p))
+	fmt.Fprintf(w, "void %s(%s attempted, %s current) {\n", invalidReaderStateMethodName(p), stateTypeName(p), stateTypeName(p))
 	w.Indented(func() {
-		w.WriteString("auto f = [](uint8_t i) -> std::string {\n")
+		fmt.Fprintf(w, "auto f = [](%s i) -> std::string {\n", stateTypeName(p))
 		w.Indented(func() {
 			w.WriteStringln("switch (i/2) {")
 			for i, step := range p.Sequence {
@@ -509,6 +509,20 @@ func writeInvalidReaderStateMethod(w *formatting.IndentedWriter, p *dsl.Protocol
 	})
 
 	w.WriteString("}\n\n")
+}
+
+// The smallest unsigned type that can hold every state of the protocol's
+// reader and writer state machines (readers use two states per step).
+func stateTypeName(p *dsl.ProtocolDefinition) string {
+	maxState := 2 * (len(p.Sequence) + 1)
+	switch {
+	case maxState <= 0xFF:
+		return "uint8_t"
+	case maxState <= 0xFFFF:
+		return "uint16_t"
+	default:
+		return "uint32_t"
+	}
 }
 
 func invalidWriterStateMethodName(p *dsl.ProtocolDefinition) string {
